@@ -13,7 +13,10 @@ NULLV, EXC = values.NULLV, values.EXC
 
 def hostile_walk(rng):
     """base + replies with names around the base: inside / equal / parent / sibling / decreasing / repeated"""
-    base = rng.choice([(1, 3, 6), (1, 3, 6, 1, 2, 1), (1, 3, 6, 128), (0, 0), (2, 39, 4294967295), (1, 3, 6, 1, 4, 1, 16383)])
+    # (enterprise numbers and other arcs on both sides of every base-128 length boundary: the base is parsed from text)
+    base = rng.choice([(1, 3, 6), (1, 3, 6, 1, 2, 1), (1, 3, 6, 128), (0, 0), (2, 39, 4294967295), (1, 3, 6, 1, 4, 1, 16383),
+                       (1, 3, 6, 1, 4, 1, 16384), (1, 3, 6, 1, 4, 1, 25506), (1, 3, 6, 1, 4, 1, 32767), (1, 3, 6, 1, 4, 1, 32768),
+                       (1, 3, 6, 1, 4, 1, 2097151), (1, 3, 6, 1, 4, 1, 2097152), (1, 3, 6, 1, 4, 1, 268435455), (1, 3, 6, 1, 4, 1, 268435456)])
     pool = []
     for _ in range(8):
         k = rng.randrange(8)
